@@ -103,6 +103,14 @@ package db
 //@   at-call Put assert[restores-current-value] pr.db.has[bytesval(key)] && bytesval(arg2) == pr.db.val[bytesval(key)] && bytesval(arg1) == bytesval(key)
 //@   at-call Delete assert[restores-absence] !pr.db.has[bytesval(key)] && bytesval(arg1) == bytesval(key)
 //@   ensures[exactly-one-op] pr.rb.opCount == old(pr.rb.opCount) + 1
+// both replay callbacks of the undo builder go through it with the operation's own key (a deletion of a key that was absent
+// before the commit must be undone by a deletion, not by writing back an empty value)
+//@ func patchRollback.Put(pr, key, value)
+//@   requires pr != nil
+//@   at-call rollback assert[the-operation's-key] arg0 == pr && arg1.arr == key.arr && arg1.off == key.off && len(arg1) == len(key)
+//@ func patchRollback.Delete(pr, key)
+//@   requires pr != nil
+//@   at-call rollback assert[the-operation's-key] arg0 == pr && arg1.arr == key.arr && arg1.off == key.off && len(arg1) == len(key)
 
 // ======================================================================================================================
 // Managers. ldbManager: abstract state = the identifier of the current frontier commit of the underlying leveldb, plus the
@@ -230,6 +238,11 @@ package db
 //@   trusted
 //@   ensures result != nil && live(result)
 //@   modifies nothing
+// The collector's Put is checked: it appends to the batch and issues no durable step of its own, whatever the size of the batch.
+//@ func ldbBatch.Put(b, key, value, wo) -> (err)
+//@   requires b != nil && b.batch != nil && b.DB != nil
+//@   ensures[collects-and-issues-no-durable-step] b.DB.writes == old(b.DB.writes) && b.batch.puts == store(old(b.batch.puts), bytesval(key), true) && err == nil
+//@   modifies b.batch.puts
 //@ func ldbBatch.View(b)
 //@   trusted
 //@   ensures result != nil && !live(result)
